@@ -15,7 +15,10 @@ def run (_tag : String) (kv : KV) : String :=
   let o := kill P proto beh (b = "fastlost") hasAddr true
   -- repeated / concurrent Kills: the later ones find a closed client (or no runner): they can only add a force kill
   let pat := kv.getD "pattern" "single"
-  let forced := if pat = "concurrent" then "any" else showBool o.forced
+  -- net/rpc, plugin exiting / already gone: the host's Close may find the session shut down before it has closed its
+  -- remaining streams (`killGonePeer`): the forced flag can be set although the plugin left on its own
+  let goneRace := proto = .netrpc && (b = "fast" || b = "fast500" || b = "fastlost" || b = "dead")
+  let forced := if pat = "concurrent" || goneRace then "any" else showBool o.forced
   -- a reattached client learns of the exit by polling once a second
   let slack := if kv.getD "launch" "cmd" = "reattach" then 1200 else 0
   s!"ret={showBool o.returns} forced={forced} dead={showBool o.procDead} exited={showBool o.exitedFlag} bound={o.boundMs + slack}"
